@@ -155,9 +155,6 @@ Proof.
 Qed.
 
 (* value form: at least d leading zero bits <-> the big-endian value is below 2^(8*len - d) *)
-Fixpoint be_val (l : list Z) : Z :=
-  match l with [] => 0 | b :: r => b * 256 ^ zlen r + be_val r end.
-
 Lemma be_val_range l : bytes_ok l -> 0 <= be_val l < 256 ^ zlen l.
 Proof.
   induction l as [|b r IH]; intros H; cbn [be_val].
